@@ -144,6 +144,10 @@ static DOCKER_CONVERT_REPLACE_REGEX: LazyLock<Regex> = LazyLock::new(|| {
 });
 
 fn convert_dockerignore_glob(glob: &str, file_path: &Path) -> Result<Regex, Error> {
+    // leading separators are dropped from the glob itself: stripping them after the conversion
+    // also removed the backslash of an escaped leading dot (`.env` became the regex `.env`)
+    let glob = glob.trim_start_matches(|c| c == '/' || c == '\\');
+
     let mut pattern = DOCKER_CONVERT_REPLACE_REGEX
         .replace_all(glob, |c: &Captures| {
             match c.index(0) {
@@ -158,10 +162,6 @@ fn convert_dockerignore_glob(glob: &str, file_path: &Path) -> Result<Regex, Erro
             .to_string()
         })
         .to_string();
-
-    while pattern.starts_with("/") || pattern.starts_with("\\") {
-        pattern.remove(0);
-    }
 
     // `dir/` names the directory `dir` itself (and, like every pattern, what is below it)
     while pattern.ends_with("/") {
